@@ -65,7 +65,10 @@ void h_run(Case &c) {
         unsigned nr = 1; struct hwloc_distances_s *ds = NULL; hwloc_distances_get_by_name(B, "dA", &nr, &ds, 0);
         if (nr >= 1 && ds) { hwloc_obj_t o2[2] = {ds->objs[0], ds->objs[1]}; hwloc_uint64_t v[4] = {ds->values[0], ds->values[1], ds->values[2], ds->values[3]}; unsigned long kind = ds->kind; hwloc_distances_release_remove(B, ds);
           hwloc_distances_add_handle_t h = hwloc_distances_add_create(B, "dB", kind, 0); hwloc_distances_add_values(B, h, 2, o2, v, 0); hwloc_distances_add_commit(B, h, 0); nnon++; why += "distances-renamed "; } }
-      else if (w == 5) { if (hwloc_topology_get_flags(B) & HWLOC_TOPOLOGY_FLAG_INCLUDE_DISALLOWED) {} /* allowed sets need INCLUDE_DISALLOWED; not configured here */ } }
+      else if (w == 5 && extras) {   // same matrix (name, kind, objects) with one value changed at a generated position, first row or not
+        unsigned nr = 1; struct hwloc_distances_s *ds = NULL; hwloc_distances_get_by_name(B, "dA", &nr, &ds, 0);
+        if (nr >= 1 && ds) { hwloc_obj_t o2[2] = {ds->objs[0], ds->objs[1]}; hwloc_uint64_t v[4] = {ds->values[0], ds->values[1], ds->values[2], ds->values[3]}; unsigned long kind = ds->kind; unsigned pos = o.range(0, 3); v[pos] += 1 + o.range(0, 5); hwloc_distances_release_remove(B, ds);
+          hwloc_distances_add_handle_t h = hwloc_distances_add_create(B, "dA", kind, 0); hwloc_distances_add_values(B, h, 2, o2, v, 0); hwloc_distances_add_commit(B, h, 0); nnon++; why += strf("distances-value[%u] ", pos); } } }
   }
   if (nnon) c.desc("\n | non-representable: " + why);
   r = hwloc_topology_diff_build(A, B, 0, &df);
